@@ -98,10 +98,31 @@ func (r *Reached) PathTo(in ssa.Instruction, pos func(token.Pos) string) string 
 	return strings.Join(parts, "→")
 }
 
-// trackedPhis returns the boolean phis of fn: their value is tracked exactly along a path when the
-// incoming value is a constant or another tracked phi whose value is known, and is unknown otherwise.
-func trackedPhis(fn *ssa.Function) map[*ssa.Phi]bool {
-	out := map[*ssa.Phi]bool{}
+// trackedPhis returns the phis of fn whose value is tracked exactly along a path: boolean phis (the
+// incoming value is a constant or another tracked phi whose value is known; unknown otherwise) and
+// nil-able phis (interfaces, pointers: tracked as nil / non-nil, see nilClass).
+type phiInfo struct {
+	phis map[*ssa.Phi]bool
+	// relevant: non-phi values whose nil-ness, once tested on the path, decides an incoming edge of
+	// a tracked nil-able phi
+	relevant map[ssa.Value]bool
+}
+
+var phiCache = map[*ssa.Function]*phiInfo{}
+
+func nilable(t types.Type) bool {
+	switch t.Underlying().(type) {
+	case *types.Interface, *types.Pointer:
+		return true
+	}
+	return false
+}
+
+func trackedPhis(fn *ssa.Function) *phiInfo {
+	if pi, ok := phiCache[fn]; ok {
+		return pi
+	}
+	out := &phiInfo{phis: map[*ssa.Phi]bool{}, relevant: map[ssa.Value]bool{}}
 	for _, b := range fn.Blocks {
 		for _, in := range b.Instrs {
 			p, ok := in.(*ssa.Phi)
@@ -109,11 +130,102 @@ func trackedPhis(fn *ssa.Function) map[*ssa.Phi]bool {
 				break
 			}
 			if bt, ok := p.Type().Underlying().(*types.Basic); ok && bt.Kind() == types.Bool {
-				out[p] = true
+				out.phis[p] = true
+			} else if nilable(p.Type()) {
+				// only worth tracking when some incoming value is the nil constant
+				for _, e := range p.Edges {
+					if IsNilConst(e) {
+						out.phis[p] = true
+					}
+				}
 			}
 		}
 	}
+	for p := range out.phis {
+		if !nilable(p.Type()) {
+			continue
+		}
+		for _, e := range p.Edges {
+			v := e
+			for depth := 0; depth < 4; depth++ {
+				if c, ok := v.(*ssa.Call); ok {
+					switch CallID(c) {
+					case "github.com/pkg/errors.Wrap", "github.com/pkg/errors.Wrapf", "github.com/pkg/errors.WithStack", "github.com/pkg/errors.WithMessage":
+						v = c.Call.Args[0]
+						continue
+					}
+				}
+				break
+			}
+			if _, isPhi := v.(*ssa.Phi); !isPhi && !IsNilConst(v) {
+				out.relevant[v] = true
+			}
+		}
+	}
+	phiCache[fn] = out
 	return out
+}
+
+// nilClass: 0 nil, 1 non-nil, -1 unknown, for value v under env.
+func nilClass(v ssa.Value, env string, pi *phiInfo, depth int) int {
+	if IsNilConst(v) {
+		return 0
+	}
+	if depth > 5 {
+		return -1
+	}
+	switch x := v.(type) {
+	case *ssa.MakeInterface, *ssa.Alloc:
+		return 1
+	case *ssa.UnOp:
+		if x.Op == token.MUL {
+			if _, ok := x.X.(*ssa.Global); ok && types.Identical(x.Type(), errorType) {
+				return 1 // package level Err... variables are initialised non-nil
+			}
+		}
+	case *ssa.Phi:
+		if pi.phis[x] {
+			if b, ok := envGet(env, x.Name()); ok {
+				if b {
+					return 1
+				}
+				return 0
+			}
+		}
+		return -1
+	case *ssa.Call:
+		switch CallID(x) {
+		case "github.com/pkg/errors.New", "errors.New", "fmt.Errorf", "github.com/pkg/errors.Errorf":
+			return 1
+		case "github.com/pkg/errors.Wrap", "github.com/pkg/errors.Wrapf", "github.com/pkg/errors.WithStack", "github.com/pkg/errors.WithMessage":
+			return nilClass(x.Call.Args[0], env, pi, depth+1)
+		}
+	}
+	if pi.relevant[v] {
+		if b, ok := envGet(env, "N:"+v.Name()); ok {
+			if b {
+				return 1
+			}
+			return 0
+		}
+	}
+	return -1
+}
+
+// nilTest decomposes `v != nil` / `v == nil`: the tested value and whether the condition being
+// true means non-nil.
+func nilTest(c ssa.Value) (ssa.Value, bool, bool) {
+	b, ok := c.(*ssa.BinOp)
+	if !ok || (b.Op != token.NEQ && b.Op != token.EQL) {
+		return nil, false, false
+	}
+	switch {
+	case IsNilConst(b.Y) && !IsNilConst(b.X):
+		return b.X, b.Op == token.NEQ, true
+	case IsNilConst(b.X) && !IsNilConst(b.Y):
+		return b.Y, b.Op == token.NEQ, true
+	}
+	return nil, false, false
 }
 
 func envGet(env string, name string) (bool, bool) {
@@ -156,7 +268,7 @@ func envSet(env string, upd map[string]int) string {
 }
 
 // condValue evaluates a branch condition under env: 1 true, 0 false, -1 unknown.
-func condValue(v ssa.Value, env string, tracked map[*ssa.Phi]bool) int {
+func condValue(v ssa.Value, env string, tracked *phiInfo) int {
 	if b, ok := ConstBool(v); ok {
 		if b {
 			return 1
@@ -173,13 +285,27 @@ func condValue(v ssa.Value, env string, tracked map[*ssa.Phi]bool) int {
 			return 1 - r
 		}
 	case *ssa.Phi:
-		if tracked[x] {
+		if tracked != nil && tracked.phis[x] {
 			if b, ok := envGet(env, x.Name()); ok {
 				if b {
 					return 1
 				}
 				return 0
 			}
+		}
+	case *ssa.BinOp:
+		if tracked == nil {
+			return -1
+		}
+		if tv, nonNilWhenTrue, ok := nilTest(x); ok {
+			c := nilClass(tv, env, tracked, 0)
+			if c < 0 {
+				return -1
+			}
+			if (c == 1) == nonNilWhenTrue {
+				return 1
+			}
+			return 0
 		}
 	}
 	return -1
@@ -189,9 +315,12 @@ func condValue(v ssa.Value, env string, tracked map[*ssa.Phi]bool) int {
 func Reach(fn *ssa.Function, starts []Pt, o Opts) *Reached {
 	r := &Reached{fn: fn, Instr: map[ssa.Instruction]bool{}, Edges: map[Edge]bool{},
 		parent: map[state]state{}, first: map[ssa.Instruction]state{}}
-	var tracked map[*ssa.Phi]bool
+	var tracked *phiInfo
 	if !o.NoFlags {
 		tracked = trackedPhis(fn)
+		if len(tracked.phis) == 0 {
+			tracked = nil
+		}
 	}
 	seen := map[state]bool{}
 	var queue []state
@@ -206,7 +335,32 @@ func Reach(fn *ssa.Function, starts []Pt, o Opts) *Reached {
 		queue = append(queue, s)
 	}
 	for _, p := range starts {
-		push(state{pt: normalize(p)}, nil)
+		env := ""
+		// a start at the top of a block whose only predecessor ends in a nil test: the fact of the
+		// edge holds (the tested value is defined before the test)
+		if tracked != nil && p.I == 0 && len(p.B.Preds) == 1 {
+			pred := p.B.Preds[0]
+			if ifi, ok := pred.Instrs[len(pred.Instrs)-1].(*ssa.If); ok && pred.Succs[0] != pred.Succs[1] {
+				c := ifi.Cond
+				neg := false
+				for {
+					if u, ok := c.(*ssa.UnOp); ok && u.Op == token.NOT {
+						c, neg = u.X, !neg
+						continue
+					}
+					break
+				}
+				if tv, pol, ok := nilTest(c); ok && tracked.relevant[tv] {
+					pol = pol != neg
+					val := 0
+					if (pred.Succs[0] == p.B) == pol {
+						val = 1
+					}
+					env = envSet(env, map[string]int{"N:" + tv.Name(): val})
+				}
+			}
+		}
+		push(state{pt: normalize(p), env: env}, nil)
 	}
 	for len(queue) > 0 {
 		s := queue[0]
@@ -222,6 +376,14 @@ func Reach(fn *ssa.Function, starts []Pt, o Opts) *Reached {
 		}
 		if o.StopAt != nil && o.StopAt(in) {
 			continue
+		}
+		if tracked != nil && s.env != "" {
+			// a value recomputed (next loop iteration) forgets what was known about the previous one
+			if v, ok := in.(ssa.Value); ok && tracked.relevant[v] {
+				if _, known := envGet(s.env, "N:"+v.Name()); known {
+					s = state{pt: s.pt, env: envSet(s.env, map[string]int{"N:" + v.Name(): -1})}
+				}
+			}
 		}
 		if o.Kill != nil {
 			if ks := o.Kill(in); len(ks) > 0 {
@@ -239,8 +401,24 @@ func Reach(fn *ssa.Function, starts []Pt, o Opts) *Reached {
 		// last instruction: follow successors
 		only := -1
 		condKey, condPol := "", false
+		var nilFactVal ssa.Value
+		nilFactPol := false
 		if ifi, ok := in.(*ssa.If); ok {
 			only = condValue(ifi.Cond, s.env, tracked)
+			if only < 0 && tracked != nil {
+				c := ifi.Cond
+				neg := false
+				for {
+					if u, ok := c.(*ssa.UnOp); ok && u.Op == token.NOT {
+						c, neg = u.X, !neg
+						continue
+					}
+					break
+				}
+				if tv, pol, ok := nilTest(c); ok && tracked.relevant[tv] {
+					nilFactVal, nilFactPol = tv, pol != neg
+				}
+			}
 			if only >= 0 {
 				only = 1 - only // value 1 (true) -> successor 0
 			}
@@ -287,7 +465,14 @@ func Reach(fn *ssa.Function, starts []Pt, o Opts) *Reached {
 				}
 				env = envSet(env, map[string]int{condKey: val})
 			}
-			if len(tracked) > 0 {
+			if nilFactVal != nil {
+				val := 0
+				if (i == 0) == nilFactPol {
+					val = 1
+				}
+				env = envSet(env, map[string]int{"N:" + nilFactVal.Name(): val})
+			}
+			if tracked != nil {
 				// which predecessor index is b in succ?
 				upd := map[string]int{}
 				for pi, pred := range succ.Preds {
@@ -300,17 +485,22 @@ func Reach(fn *ssa.Function, starts []Pt, o Opts) *Reached {
 						if !ok {
 							break
 						}
-						if !tracked[p] {
+						if !tracked.phis[p] {
 							continue
 						}
 						inc := p.Edges[pi]
+						if nilable(p.Type()) {
+							// the phis of a block are assigned in parallel: read the old env
+							upd[p.Name()] = nilClass(inc, env, tracked, 0)
+							continue
+						}
 						if cb, ok := ConstBool(inc); ok {
 							if cb {
 								upd[p.Name()] = 1
 							} else {
 								upd[p.Name()] = 0
 							}
-						} else if ip, ok := inc.(*ssa.Phi); ok && tracked[ip] {
+						} else if ip, ok := inc.(*ssa.Phi); ok && tracked.phis[ip] {
 							if v, ok := envGet(s.env, ip.Name()); ok {
 								if v {
 									upd[p.Name()] = 1
@@ -515,4 +705,74 @@ func DominatedByEdges(fn *ssa.Function, target ssa.Instruction, pass []Edge, ass
 		return false, r.PathTo(target, pos)
 	}
 	return true, ""
+}
+
+// Resolved is a value a phi can take on the explored paths, with the instruction at which it
+// enters the phi (the terminator of the predecessor block).
+type Resolved struct {
+	V  ssa.Value
+	At ssa.Instruction
+}
+
+// Resolve expands v through phis, following only the incoming edges that the traversal took: the
+// result is a superset of the values v can denote on the explored paths.
+func (r *Reached) Resolve(v ssa.Value, at ssa.Instruction) []Resolved {
+	var out []Resolved
+	seen := map[ssa.Value]bool{}
+	var rec func(v ssa.Value, at ssa.Instruction)
+	rec = func(v ssa.Value, at ssa.Instruction) {
+		ph, ok := v.(*ssa.Phi)
+		if !ok {
+			out = append(out, Resolved{v, at})
+			return
+		}
+		if seen[v] {
+			return
+		}
+		seen[v] = true
+		any := false
+		for i, e := range ph.Edges {
+			pred := ph.Block().Preds[i]
+			taken := false
+			for si, s := range pred.Succs {
+				if s == ph.Block() && r.Edges[Edge{pred, si}] {
+					taken = true
+				}
+			}
+			if !taken {
+				continue
+			}
+			any = true
+			rec(e, pred.Instrs[len(pred.Instrs)-1])
+		}
+		if !any {
+			// the traversal started inside or after the phi's block: nothing is known
+			out = append(out, Resolved{v, at})
+		}
+	}
+	rec(v, at)
+	return out
+}
+
+// ErrClass classifies the error operand of ret over the explored paths.
+func (r *Reached) ErrClass(ret *ssa.Return) ErrClass {
+	idx := ErrResultIndex(ret.Parent())
+	if idx < 0 || idx >= len(ret.Results) {
+		return ErrNil
+	}
+	v := RetOperand(ret, idx)
+	if c := ClassifyErr(v, ret); c != ErrMaybe {
+		return c
+	}
+	rs := r.Resolve(v, ret)
+	if len(rs) == 0 {
+		return ErrMaybe
+	}
+	c := ClassifyErr(rs[0].V, rs[0].At)
+	for _, x := range rs[1:] {
+		if ClassifyErr(x.V, x.At) != c {
+			return ErrMaybe
+		}
+	}
+	return c
 }
